@@ -130,7 +130,7 @@ def rule_r1_r2(ctx, rep):
                     rep.add("R2", fi.qname, e.construct, "the node registry is written outside Node's registry class methods", e.loc)
     if ci.setters.get("id") is not None:
         rep.add("R2", NODE_Q, "id setter", "Node has an id setter: ids can change under the registry", ci.setters["id"].loc())
-    rep.floor("id writes", 2)
+    rep.floor("id writes", 1)
     rep.floor("registry writes", 2)
 
 
